@@ -30,7 +30,7 @@ static const char* bk_name(blocking_kind b) {
   }
 }
 
-// RB: whether `blocking(s)` is instantiated for this expression (tools/gen_typed.py: rb_mode)
+// RB: whether `blocking(s)` is instantiated for this expression (always, since /repo 1851e17 + b8af8c9)
 template <bool RB, typename F>
 static void typed_case(int id, char cmd, F make) {
   using S = remove_cvref_t<decltype(make())>;
